@@ -142,6 +142,7 @@ def check(desc, col):
     # hence usage and capacity validity, depend on the execution order) --------------------------------------
     tuples = list(itertools.product(*[chosen[e] for e in einsums]))
     ref_fronts = []
+    all_vecs = []
     n_rejected = n_fused = 0
     for order in orders:
         vecs = []
@@ -187,6 +188,7 @@ def check(desc, col):
         dist = sorted(set(vecs))
         keep = ref_pareto_mask(dist, ["min"] * len(dist[0])) if dist else []
         ref_fronts.append([v for v, kp in zip(dist, keep) if kp])
+        all_vecs.append(dist)
     ref_front = ref_fronts[0]
     nontrivial = len(tuples) >= 4 and n_fused >= 1 and n_rejected >= 1
     col.case([sp, chosen], nontrivial,
@@ -195,9 +197,17 @@ def check(desc, col):
               f"front:{min(len(ref_front), 5)}", f"orders:{len(orders)}"],
              sample={"shape": sp["shape"], "bounds": sp["bounds"], "mapper": sp["mapper"], "rows_per_einsum": {e: len(chosen[e]) for e in einsums},
                      "tuples": len(tuples), "rejected": n_rejected, "fused": n_fused, "reference_front": ref_front[:5]})
-    for order, front, ref_front in zip(orders, fronts, ref_fronts):
-        lost = [v for v in ref_front if not any(_same(v, w) for w in front)]
-        extra = [v for v in front if not any(_same(v, w) for w in ref_front)]
+    # Fronts are compared by mutual weak coverage within the float32 tolerance, not by exact vector equality: equal usages
+    # reach the tables once as float32 and once as float64 (0.054054055 vs 0.054054054), so an exact O(n^2) front keeps a
+    # point that the joiner rightly treats as dominated.  lost = a reference-front point that no joined point covers;
+    # extra = a joined point that is not the vector of any tuple, or that a reference-front point dominates by more than the tolerance.
+    def _covers(w, v):
+        return len(w) == len(v) and all(x <= y * (1 + 1e-5) + 1e-9 for x, y in zip(w, v))
+
+    for order, front, ref_front, dist in zip(orders, fronts, ref_fronts, all_vecs):
+        lost = [v for v in ref_front if not any(_covers(w, v) for w in front)]
+        extra = [v for v in front if not any(_same(v, w) for w in dist)
+                 or any(_covers(w, v) and any(x < y * (1 - 1e-4) - 1e-9 for x, y in zip(w, v)) for w in ref_front)]
         if lost or extra:
             raise Violation(f"join (order {order}) of {[len(chosen[e]) for e in einsums]} rows differs from the combination of all "
                             f"{len(tuples)} tuples: missing {lost[:4]}, extra {extra[:4]}; reference front {ref_front[:6]}, joined "
